@@ -424,10 +424,11 @@ def c15(tier):
                           % (len(bad), bad[0]['cwd'], ' '.join(bad[0]['argv']), '; '.join(bad[0]['problems'])[:400]))
     # spellings inside RedoSys: histories whose command lines and scripts name files by several spellings (at -j1 and -j2)
     v2, scov, ste, swall = syscheck.run_family(
-        'C15', tier, fam(['alias']), ['Fresh', 'NoUnderBuild', 'NoDupRun'], ['NoOverBuild'], None,
+        'C15', tier, fam(['alias', 'subdirs_cwd']), ['Fresh', 'NoUnderBuild', 'NoDupRun'], ['NoOverBuild'], None,
         (4, 3), sample_n=None if tier == 'thorough' else 60, jitter=True, repeat=3 if tier == 'thorough' else 1,
         verdict=verdict, subdir='sys',
-        note='RedoSys with the constant Alias (spelling -> file): one record, one lock, one build per run')
+        note='RedoSys with the constant Alias (spelling -> file, also relative to the working directory of a command '
+             'started in a subdirectory): one record, one lock, one build per run')
     tool += ste
     cov['alias_histories'] = {'states': scov['states'], 'behaviours_replayed': scov['behaviours_replayed'],
                               'history_inputs_enumerated': scov['history_inputs_enumerated']}
